@@ -27,6 +27,7 @@ import (
 	sdkerrors "github.com/cosmos/cosmos-sdk/types/errors"
 	authtypes "github.com/cosmos/cosmos-sdk/x/auth/types"
 	"github.com/cosmos/cosmos-sdk/x/authz"
+	codectypes "github.com/cosmos/cosmos-sdk/codec/types"
 	bankkeeper "github.com/cosmos/cosmos-sdk/x/bank/keeper"
 	banktypes "github.com/cosmos/cosmos-sdk/x/bank/types"
 	"github.com/cosmos/cosmos-sdk/x/gov"
@@ -38,6 +39,10 @@ import (
 	stakingtypes "github.com/cosmos/cosmos-sdk/x/staking/types"
 
 	"github.com/provenance-io/provenance/app"
+	"github.com/provenance-io/provenance/x/exchange"
+	exchangekeeper "github.com/provenance-io/provenance/x/exchange/keeper"
+	markerkeeper "github.com/provenance-io/provenance/x/marker/keeper"
+	markertypes "github.com/provenance-io/provenance/x/marker/types"
 	"github.com/provenance-io/provenance/x/quarantine"
 	"github.com/provenance-io/provenance/x/sanction"
 	sanctionkeeper "github.com/provenance-io/provenance/x/sanction/keeper"
@@ -56,10 +61,44 @@ var (
 	sancAddrs   map[string]sdk.AccAddress
 	sancNames   map[string]string // string(addr bytes) -> name
 	sancValAddr string
+	sancAdm     sdk.AccAddress
 	sancT0      = time.Unix(1_700_000_000, 0).UTC()
 )
 
 var sancOrder = []string{"A", "B", "C", "D", "V", "GOV", "BOND", "FEE", "QUAR"}
+
+// the accounts of the restricted markers a history may create (by denom) and of the exchange market
+var sancMarkerAcct = map[string]string{"rcoin": "RC", "scoin": "SC"}
+
+const sancMarketID = 1
+
+// sancMarker is one restricted marker of a history: who holds which access.
+type sancMarker struct {
+	denom, acct                    string
+	force                          bool
+	xfer, forcers, withdraw, depos []string
+}
+
+func (m sancMarker) String() string {
+	f := "0"
+	if m.force {
+		f = "1"
+	}
+	return strings.Join([]string{m.denom, m.acct, f, JoinOr(m.xfer, "+"), JoinOr(m.forcers, "+"), JoinOr(m.withdraw, "+"), JoinOr(m.depos, "+")}, "/")
+}
+
+func sancParseMarkers(v string) ([]sancMarker, bool) {
+	var out []sancMarker
+	for _, x := range sancList(v, ";") {
+		f := strings.Split(x, "/")
+		if len(f) != 7 || sancMarkerAcct[f[0]] != f[1] {
+			return nil, false
+		}
+		out = append(out, sancMarker{denom: f[0], acct: f[1], force: f[2] == "1", xfer: sancList(f[3], "+"), forcers: sancList(f[4], "+"),
+			withdraw: sancList(f[5], "+"), depos: sancList(f[6], "+")})
+	}
+	return out, true
+}
 var sancUnsanc = []string{"GOV", "BOND", "FEE", "QUAR"}
 var sancUsers = []string{"A", "B", "C", "D"}
 
@@ -194,6 +233,28 @@ func sancSetup(t *testing.T) {
 		sancAddrs["BOND"] = authtypes.NewModuleAddress(stakingtypes.BondedPoolName)
 		sancAddrs["FEE"] = authtypes.NewModuleAddress(authtypes.FeeCollectorName)
 		sancAddrs["QUAR"] = authtypes.NewModuleAddress(quarantine.ModuleName)
+		for d, n := range sancMarkerAcct {
+			sancAddrs[n] = markertypes.MustGetMarkerAddress(d)
+		}
+		sancAddrs["MKT"] = exchange.GetMarketAddress(sancMarketID)
+		// the manager of the markers and admin of the market: not an account of the histories
+		sancAdm = sdk.AccAddress([]byte("verif-sanc-admin____"))
+		admAcc := a.AccountKeeper.NewAccountWithAddress(ctx, sancAdm)
+		_ = admAcc.SetSequence(1)
+		a.AccountKeeper.SetAccount(ctx, admAcc)
+		if _, err := a.ExchangeKeeper.CreateMarket(ctx, exchange.Market{MarketId: sancMarketID,
+			MarketDetails: exchange.MarketDetails{Name: "verif sanc market"}, AcceptingOrders: true,
+			AccessGrants: []exchange.AccessGrant{{Address: sancAdm.String(), Permissions: exchange.AllPermissions()},
+				{Address: sancAddrs["A"].String(), Permissions: []exchange.Permission{exchange.Permission_withdraw}},
+				{Address: sancAddrs["C"].String(), Permissions: exchange.AllPermissions()}}}); err != nil {
+			t.Fatalf("create market: %v", err)
+		}
+		// every named account exists from the start (canForceTransferFrom looks at the account)
+		for _, n := range []string{"GOV", "BOND", "FEE", "QUAR"} {
+			if a.AccountKeeper.GetAccount(ctx, sancAddrs[n]) == nil {
+				a.AccountKeeper.SetAccount(ctx, a.AccountKeeper.NewAccountWithAddress(ctx, sancAddrs[n]))
+			}
+		}
 		for n, ad := range sancAddrs {
 			sancNames[string(ad)] = n
 		}
@@ -208,12 +269,14 @@ type sancEnv struct {
 	ctx sdk.Context
 	now int64
 	cfg sancCfg
+	names   []string // the accounts the dump reports on (cfg names=)
+	markers []sancMarker
 }
 
 func newSancEnv(t *testing.T) *sancEnv {
 	sancSetup(t)
 	ctx, _ := sancBase.CacheContext()
-	return &sancEnv{t: t, a: sancApp, ctx: ctx.WithBlockTime(sancT0).WithBlockHeight(10)}
+	return &sancEnv{t: t, a: sancApp, ctx: ctx.WithBlockTime(sancT0).WithBlockHeight(10), names: sancOrder}
 }
 
 func (e *sancEnv) addr(name string) string {
@@ -305,6 +368,36 @@ func sancErrClass(err error) string {
 	return "err:other"
 }
 
+// sancRouteErrClass classifies the errors of the marker / exchange endpoints: their msg servers
+// flatten the error chain into text (ErrInvalidRequest.Wrap(err.Error())), so the bank's and the
+// sanction module's errors are recognised by their registered messages.
+func sancRouteErrClass(err error) string {
+	if err == nil {
+		return "ok"
+	}
+	msg := err.Error()
+	switch {
+	case errors.Is(err, sanctionerrors.ErrSanctionedAccount), strings.Contains(msg, sanctionerrors.ErrSanctionedAccount.Error()):
+		return "err:sanctioned"
+	case errors.Is(err, sdkerrors.ErrInsufficientFunds), strings.Contains(msg, sdkerrors.ErrInsufficientFunds.Error()),
+		strings.Contains(msg, "is less than hold amount"):
+		return "err:funds"
+	case strings.Contains(msg, "is not allowed to receive funds"):
+		return "err:blocked"
+	case strings.Contains(msg, "has not been granted authority"):
+		return "err:nogrant"
+	case strings.Contains(msg, "funds are not allowed to be removed from"):
+		return "err:noforce"
+	case strings.Contains(msg, "marker not found for"):
+		return "err:nomarker"
+	case strings.Contains(msg, "does not have ACCESS_"), strings.Contains(msg, "does not have permission to"):
+		return "err:perm"
+	case errors.Is(err, authz.ErrGranteeIsGranter):
+		return "err:invalid"
+	}
+	return sancErrClass(err)
+}
+
 func sancKV(ws []string, k, d string) string {
 	if v := kvArg(ws, k); v != "" {
 		return v
@@ -321,6 +414,15 @@ func sancList(s string, sep string) []string {
 
 // try runs f atomically (cached context written on success) and renders the outcome.
 func (e *sancEnv) try(f func(ctx sdk.Context) (string, error)) string {
+	return e.tryClass(sancErrClass, f)
+}
+
+// tryRoute is try for the marker / exchange endpoints.
+func (e *sancEnv) tryRoute(f func(ctx sdk.Context) error) string {
+	return e.tryClass(sancRouteErrClass, func(ctx sdk.Context) (string, error) { return "", f(ctx) })
+}
+
+func (e *sancEnv) tryClass(class func(error) string, f func(ctx sdk.Context) (string, error)) string {
 	var okOut string
 	err, pan := Try(e.ctx, func(ctx sdk.Context) error {
 		o, err := f(ctx)
@@ -331,7 +433,7 @@ func (e *sancEnv) try(f func(ctx sdk.Context) (string, error)) string {
 		return "panic:" + pan
 	}
 	if err != nil {
-		c := sancErrClass(err)
+		c := class(err)
 		if c == "err:other" {
 			e.t.Logf("unclassified error: %v", err)
 		}
@@ -389,6 +491,25 @@ func (e *sancEnv) applyCfg(ws []string) string {
 			}
 		}
 	}
+	if ns := sancList(sancKV(ws, "names", "-"), "|"); len(ns) > 0 {
+		for _, n := range ns {
+			if _, ok := sancAddrs[n]; !ok {
+				return "err:setup"
+			}
+		}
+		e.names = ns
+	}
+	ms, ok := sancParseMarkers(sancKV(ws, "markers", "-"))
+	if !ok {
+		return "err:setup"
+	}
+	for _, m := range ms {
+		if err := e.createMarker(m); err != nil {
+			e.t.Logf("create marker %s: %v", m, err)
+			return "err:setup"
+		}
+	}
+	e.markers = ms
 	c.cancel = sancKV(ws, "cancel", "1/2")
 	c.burnQ = sancKV(ws, "burnq", "0") == "1"
 	c.burnV = sancKV(ws, "burnv", "0") == "1"
@@ -415,11 +536,92 @@ func (e *sancEnv) applyCfg(ws []string) string {
 	return "ok"
 }
 
+// createMarker adds an active restricted marker (supply 0, floating; the history mints its coins).
+func (e *sancEnv) createMarker(m sancMarker) error {
+	perms := map[string][]markertypes.Access{}
+	for _, x := range []struct {
+		ns []string
+		a  markertypes.Access
+	}{{m.xfer, markertypes.Access_Transfer}, {m.forcers, markertypes.Access_ForceTransfer}, {m.withdraw, markertypes.Access_Withdraw}, {m.depos, markertypes.Access_Deposit}} {
+		for _, n := range x.ns {
+			if _, ok := sancAddrs[n]; !ok {
+				return fmt.Errorf("unknown account %q", n)
+			}
+			perms[n] = append(perms[n], x.a)
+		}
+	}
+	grants := []markertypes.AccessGrant{{Address: sancAdm.String(), Permissions: []markertypes.Access{markertypes.Access_Admin,
+		markertypes.Access_Mint, markertypes.Access_Burn, markertypes.Access_Delete}}}
+	var ns []string
+	for n := range perms {
+		ns = append(ns, n)
+	}
+	sort.Strings(ns)
+	for _, n := range ns {
+		grants = append(grants, markertypes.AccessGrant{Address: sancAddrs[n].String(), Permissions: perms[n]})
+	}
+	ma := markertypes.NewMarkerAccount(authtypes.NewBaseAccount(markertypes.MustGetMarkerAddress(m.denom), nil, 0, 0),
+		sdk.NewInt64Coin(m.denom, 0), sancAdm, grants, markertypes.StatusProposed, markertypes.MarkerType_RestrictedCoin,
+		false, true, m.force, []string{})
+	if err := e.a.MarkerKeeper.SetNetAssetValue(e.ctx, ma, markertypes.NewNetAssetValue(sdk.NewInt64Coin(markertypes.UsdDenom, 1), 1), "verif"); err != nil {
+		return err
+	}
+	return e.a.MarkerKeeper.AddFinalizeAndActivateMarker(e.ctx, ma)
+}
+
+// noForce lists the named accounts forced transfers may not take from, as the real account
+// store has them (an existing account with sequence 0 that is not a marker / market account).
+func (e *sancEnv) noForce(names []string, markers []sancMarker) []string {
+	var out []string
+	for _, n := range names {
+		isMarker := false
+		for _, m := range markers {
+			if m.acct == n {
+				isMarker = true
+			}
+		}
+		acc := e.a.AccountKeeper.GetAccount(e.ctx, sancAddrs[n])
+		if acc == nil || isMarker || acc.GetSequence() != 0 {
+			continue
+		}
+		if _, ok := acc.(*exchange.MarketAccount); ok {
+			continue
+		}
+		out = append(out, n)
+	}
+	return out
+}
+
+// cfgLineFor is the cfg op of a history with markers: names, markers, blocked addresses (asked
+// of the real bank keeper), accounts closed to forced transfers, the market account.
+func (e *sancEnv) cfgLineFor(c sancCfg, names []string, markers []sancMarker) string {
+	e.names = names
+	line := e.cfgLine(c)
+	var ms, blocked []string
+	for _, m := range markers {
+		ms = append(ms, m.String())
+	}
+	for _, n := range names {
+		if e.a.BankKeeper.BlockedAddr(sancAddrs[n]) {
+			blocked = append(blocked, n)
+		}
+	}
+	// who may withdraw from the market, as the real exchange keeper answers
+	var mktadm []string
+	for _, n := range names {
+		if e.a.ExchangeKeeper.CanWithdrawMarketFunds(e.ctx, sancMarketID, sancAddrs[n].String()) {
+			mktadm = append(mktadm, n)
+		}
+	}
+	return line + fmt.Sprintf(" markers=%s blocked=%s noforce=%s market=MKT mktadm=%s", JoinOr(ms, ";"), JoinOr(blocked, "|"),
+		JoinOr(e.noForce(names, markers), "|"), JoinOr(mktadm, "|"))
+}
+
 // cfgLine renders the cfg op for a history: the configuration the harness installs and the
 // starting balances read from the real bank.
 func (e *sancEnv) cfgLine(c sancCfg) string {
 	var b0 []string
-	for _, n := range sancOrder {
+	for _, n := range e.names {
 		bal := e.a.BankKeeper.GetAllBalances(e.ctx, sancAddrs[n])
 		if !bal.IsZero() {
 			b0 = append(b0, n+":"+sancCoinsStr(bal))
@@ -432,7 +634,7 @@ func (e *sancEnv) cfgLine(c sancCfg) string {
 		return "0"
 	}
 	return fmt.Sprintf("cfg unsanc=%s names=%s bond=%s mindep=%s expmindep=%s initmin=%s initminexp=%s depmin=%s depminexp=%s depp=%d votp=%d expvotp=%d cancel=%s burnq=%s burnv=%s burnp=%s bal0=%s",
-		strings.Join(sancUnsanc, "|"), strings.Join(sancOrder, "|"), sancBond, c.minDep, c.expMinDep, c.initMin, c.initMinExp,
+		strings.Join(sancUnsanc, "|"), strings.Join(e.names, "|"), sancBond, c.minDep, c.expMinDep, c.initMin, c.initMinExp,
 		c.depMin, c.depMinExp, c.depP, c.votP, c.expVotP, c.cancel, b(c.burnQ), b(c.burnV), b(c.burnP), JoinOr(b0, "|"))
 }
 
@@ -624,10 +826,152 @@ func (e *sancEnv) exec(op string) string {
 			if err := e.a.BankKeeper.MintCoins(ctx, minttypes.ModuleName, amt); err != nil {
 				return "", err
 			}
-			return "", e.a.BankKeeper.SendCoinsFromModuleToAccount(ctx, minttypes.ModuleName, who, amt)
+			// (set-up: restricted coins are handed out under the marker module's bypass)
+			return "", e.a.BankKeeper.SendCoinsFromModuleToAccount(markertypes.WithBypass(ctx), minttypes.ModuleName, who, amt)
+		})
+	case "grant":
+		// authz MsgGrant of a MarkerTransferAuthorization, signed by the owner of the funds
+		lim, ok := sancCoins(sancKV(ws, "lim", "-"))
+		if !ok {
+			return "bad-op"
+		}
+		return e.tryRoute(func(ctx sdk.Context) error {
+			any, err := codectypes.NewAnyWithValue(markertypes.NewMarkerTransferAuthorization(lim, nil))
+			if err != nil {
+				return err
+			}
+			m := &authz.MsgGrant{Granter: e.addr(sancKV(ws, "from", "A")), Grantee: e.addr(sancKV(ws, "to", "B")), Grant: authz.Grant{Authorization: any}}
+			if err := sancValidateBasic(m); err != nil {
+				return err
+			}
+			_, err = e.a.AuthzKeeper.Grant(ctx, m)
+			return err
+		})
+	case "mxfer":
+		amt, ok := sancCoins(sancKV(ws, "amt", "-"))
+		if !ok || len(amt) != 1 {
+			return "bad-op"
+		}
+		ms := markerkeeper.NewMsgServerImpl(e.a.MarkerKeeper)
+		return e.tryRoute(func(ctx sdk.Context) error {
+			m := &markertypes.MsgTransferRequest{Administrator: e.addr(sancKV(ws, "admin", "A")), FromAddress: e.addr(sancKV(ws, "from", "A")),
+				ToAddress: e.addr(sancKV(ws, "to", "B")), Amount: amt[0]}
+			if err := sancValidateBasic(m); err != nil {
+				return err
+			}
+			_, err := ms.Transfer(ctx, m)
+			return err
+		})
+	case "mwd":
+		amt, ok := sancCoins(sancKV(ws, "amt", "-"))
+		if !ok {
+			return "bad-op"
+		}
+		ms := markerkeeper.NewMsgServerImpl(e.a.MarkerKeeper)
+		return e.tryRoute(func(ctx sdk.Context) error {
+			m := &markertypes.MsgWithdrawRequest{Administrator: e.addr(sancKV(ws, "admin", "A")), ToAddress: e.addr(sancKV(ws, "to", "B")),
+				Denom: sancKV(ws, "denom", ""), Amount: amt}
+			if err := sancValidateBasic(m); err != nil {
+				return err
+			}
+			_, err := ms.Withdraw(ctx, m)
+			return err
+		})
+	case "mktwd":
+		amt, ok := sancCoins(sancKV(ws, "amt", "-"))
+		if !ok {
+			return "bad-op"
+		}
+		xs := exchangekeeper.NewMsgServer(e.a.ExchangeKeeper)
+		return e.tryRoute(func(ctx sdk.Context) error {
+			m := &exchange.MsgMarketWithdrawRequest{Admin: e.addr(sancKV(ws, "admin", "A")), MarketId: sancMarketID, ToAddress: e.addr(sancKV(ws, "to", "A")), Amount: amt}
+			if err := sancValidateBasic(m); err != nil {
+				return err
+			}
+			_, err := xs.MarketWithdraw(ctx, m)
+			return err
+		})
+	case "pay":
+		// the source creates a payment, the target accepts it (one transaction)
+		sAmt, ok := sancCoins(sancKV(ws, "samt", "-"))
+		tAmt, ok2 := sancCoins(sancKV(ws, "tamt", "-"))
+		if !ok || !ok2 {
+			return "bad-op"
+		}
+		xs := exchangekeeper.NewMsgServer(e.a.ExchangeKeeper)
+		return e.tryRoute(func(ctx sdk.Context) error {
+			p := exchange.Payment{Source: e.addr(sancKV(ws, "src", "A")), SourceAmount: sAmt, Target: e.addr(sancKV(ws, "tgt", "B")),
+				TargetAmount: tAmt, ExternalId: "verif"}
+			mc := &exchange.MsgCreatePaymentRequest{Payment: p}
+			if err := sancValidateBasic(mc); err != nil {
+				return err
+			}
+			if _, err := xs.CreatePayment(ctx, mc); err != nil {
+				return err
+			}
+			ma := &exchange.MsgAcceptPaymentRequest{Payment: p}
+			if err := sancValidateBasic(ma); err != nil {
+				return err
+			}
+			_, err := xs.AcceptPayment(ctx, ma)
+			return err
+		})
+	case "settle":
+		// an ask of the seller, a bid of the buyer, settled by the market's admin (one transaction)
+		assets, ok := sancCoins(sancKV(ws, "assets", "-"))
+		price, ok2 := sancCoins(sancKV(ws, "price", "-"))
+		if !ok || !ok2 {
+			return "bad-op"
+		}
+		seller, buyer := e.addr(sancKV(ws, "seller", "A")), e.addr(sancKV(ws, "buyer", "B"))
+		if len(assets) != 1 || len(price) != 1 || seller == buyer {
+			return "err:invalid"
+		}
+		xs := exchangekeeper.NewMsgServer(e.a.ExchangeKeeper)
+		return e.tryRoute(func(ctx sdk.Context) error {
+			mask := &exchange.MsgCreateAskRequest{AskOrder: exchange.AskOrder{MarketId: sancMarketID, Seller: seller, Assets: assets[0], Price: price[0]}}
+			if err := sancValidateBasic(mask); err != nil {
+				return err
+			}
+			ra, err := xs.CreateAsk(ctx, mask)
+			if err != nil {
+				return err
+			}
+			mbid := &exchange.MsgCreateBidRequest{BidOrder: exchange.BidOrder{MarketId: sancMarketID, Buyer: buyer, Assets: assets[0], Price: price[0]}}
+			if err := sancValidateBasic(mbid); err != nil {
+				return err
+			}
+			rb, err := xs.CreateBid(ctx, mbid)
+			if err != nil {
+				return err
+			}
+			mset := &exchange.MsgMarketSettleRequest{Admin: sancAdm.String(), MarketId: sancMarketID, AskOrderIds: []uint64{ra.OrderId}, BidOrderIds: []uint64{rb.OrderId}}
+			if err := sancValidateBasic(mset); err != nil {
+				return err
+			}
+			_, err = xs.MarketSettle(ctx, mset)
+			return err
 		})
 	}
 	return "bad-op"
+}
+
+// sancValidateBasic is what the transaction pipeline does before a message reaches its handler.
+func sancValidateBasic(m sdk.Msg) error {
+	if v, ok := m.(sdk.HasValidateBasic); ok {
+		if err := v.ValidateBasic(); err != nil {
+			return sdkerrors.ErrInvalidRequest.Wrap("validate basic: " + sancScrub(err.Error()))
+		}
+	}
+	return nil
+}
+
+// sancScrub keeps a ValidateBasic failure from being read as one of the classified handler errors.
+func sancScrub(msg string) string {
+	for _, w := range []string{"sanctioned", "insufficient funds", "hold amount", "receive funds", "granted authority", "removed from", "marker not found", "ACCESS_", "have permission"} {
+		msg = strings.ReplaceAll(msg, w, "_")
+	}
+	return msg
 }
 
 // sancKeyOp runs the exported key functions of x/sanction/keeper/keys.go.
@@ -756,7 +1100,7 @@ func (e *sancEnv) dump() string {
 	return Guard(func() string {
 		k := e.a.SanctionKeeper
 		var san, perm, temp, idx, props, bal []string
-		for _, n := range sancOrder {
+		for _, n := range e.names {
 			b := "0"
 			if k.IsSanctionedAddr(e.ctx, sancAddrs[n]) {
 				b = "1"
@@ -820,9 +1164,29 @@ func (e *sancEnv) dump() string {
 			props = append(props, fmt.Sprintf("%d:%s:%s", id, st, sancCoinsStr(sdk.Coins(p.TotalDeposit))))
 		}
 		sp := k.GetParams(e.ctx)
-		return fmt.Sprintf("san=%s perm=%s temp=%s idx=%s props=%s next=%d smin=%s umin=%s bal=%s",
+		// authz grants of marker transfer authorizations: grantee<granter:limit
+		var grants []string
+		e.a.AuthzKeeper.IterateGrants(e.ctx, func(granter, grantee sdk.AccAddress, g authz.Grant) bool {
+			au, err := g.GetAuthorization()
+			if err != nil {
+				return false
+			}
+			if mta, ok := au.(*markertypes.MarkerTransferAuthorization); ok {
+				grants = append(grants, fmt.Sprintf("%s<%s:%s", e.name(grantee), e.name(granter), sancCoinsStr(mta.TransferLimit)))
+			}
+			return false
+		})
+		sort.Slice(grants, func(i, j int) bool { // by (grantee, granter)
+			a, b := strings.SplitN(grants[i], ":", 2)[0], strings.SplitN(grants[j], ":", 2)[0]
+			ai, bi := strings.SplitN(a, "<", 2), strings.SplitN(b, "<", 2)
+			if ai[0] != bi[0] {
+				return ai[0] < bi[0]
+			}
+			return ai[1] < bi[1]
+		})
+		return fmt.Sprintf("san=%s perm=%s temp=%s idx=%s props=%s next=%d smin=%s umin=%s bal=%s grants=%s",
 			JoinOr(san, ";"), JoinOr(perm, ";"), JoinOr(temp, ";"), JoinOr(idx, ";"), JoinOr(props, ";"), next,
-			sancCoinsStr(sp.ImmediateSanctionMinDeposit), sancCoinsStr(sp.ImmediateUnsanctionMinDeposit), JoinOr(bal, ";"))
+			sancCoinsStr(sp.ImmediateSanctionMinDeposit), sancCoinsStr(sp.ImmediateUnsanctionMinDeposit), JoinOr(bal, ";"), JoinOr(grants, ";"))
 	})
 }
 
@@ -837,6 +1201,8 @@ type sancGen struct {
 	mode int // 0 = mixed, 1 = voting-heavy (proposals reach the voting period and are resolved by votes)
 	sanc sancAmts // immediate sanction min deposit, one amount per denom (empty = none)
 	uns  sancAmts
+	extra  []string // accounts of the history's markers and of the market
+	denoms []string // the history's gov deposit denoms
 }
 
 func (g *sancGen) do(op string) string {
@@ -915,6 +1281,9 @@ func (g *sancGen) q() {
 
 func (g *sancGen) target() string {
 	r := g.r
+	if len(g.extra) > 0 && r.Chance(12) {
+		return Pick(r, g.extra) // a marker's or the market's account
+	}
 	switch {
 	case r.Chance(7) || g.failProne && r.Chance(18):
 		return Pick(r, sancUnsanc)
@@ -1264,8 +1633,37 @@ func (g *sancGen) history(k int, steps int) {
 	c.cancel = Pick(r, []string{"1/2", "1/2", "1/4", "0/1", "1/1"})
 	c.burnQ, c.burnV, c.burnP = r.Chance(30), r.Chance(70), r.Chance(25)
 	g.e.cfg = c
-	// install the gov params first so that the cfg line reports what is installed
-	line := g.e.cfgLine(c)
+	g.denoms = denoms
+	// the restricted markers of the history and who may move their coins
+	var markers []sancMarker
+	some := func(pool []string, min, max int) []string {
+		k := min + r.Intn(max-min+1)
+		var out []string
+		for _, n := range pool {
+			if len(out) < k && r.Chance(100*k/len(pool)+20) {
+				out = append(out, n)
+			}
+		}
+		return out
+	}
+	for _, d := range []string{"rcoin", "scoin"} {
+		if d == "rcoin" && r.Chance(75) || d == "scoin" && len(markers) > 0 && r.Chance(30) {
+			m := sancMarker{denom: d, acct: sancMarkerAcct[d], force: r.Chance(60), xfer: some(sancUsers, 1, 3),
+				forcers: some(sancUsers, 0, 2), withdraw: some(sancUsers, 1, 2), depos: some(sancUsers, 0, 2)}
+			if m.force && len(m.forcers) == 0 && r.Chance(70) {
+				m.forcers = []string{Pick(r, sancUsers)}
+			}
+			markers = append(markers, m)
+		}
+	}
+	g.extra = nil
+	for _, m := range markers {
+		g.extra = append(g.extra, m.acct)
+	}
+	g.extra = append(g.extra, "MKT")
+	g.out.Count(fmt.Sprintf("cfg:markers:%d", len(markers)))
+	names := append(append([]string{}, sancOrder...), g.extra...)
+	line := g.e.cfgLineFor(c, names, markers)
 	g.do(line)
 	for _, n := range sancUsers {
 		f := sancAmts{}
@@ -1274,11 +1672,37 @@ func (g *sancGen) history(k int, steps int) {
 				f[d] = int64(200+r.Intn(6000)) * sancDenomMin[d] / 1000
 			}
 		}
-		if r.Chance(10) {
+		if r.Chance(60) {
 			f["qcoin"] = int64(1 + r.Intn(500))
 		}
 		if len(f) > 0 {
 			g.do(fmt.Sprintf("fund who=%s amt=%s", n, f))
+		}
+	}
+	for _, m := range markers {
+		for _, n := range append(append([]string{}, sancUsers...), m.acct, "V") {
+			if r.Chance(75) {
+				g.do(fmt.Sprintf("fund who=%s amt=%d%s", n, 20+r.Intn(3000), m.denom))
+			}
+		}
+		if r.Chance(50) {
+			g.do(fmt.Sprintf("fund who=%s amt=%d%s", m.acct, 50+r.Intn(500), sancBond)) // other coins held by the marker
+		}
+	}
+	{
+		f := sancAmts{}
+		for _, d := range denoms {
+			if r.Chance(80) {
+				f[d] = int64(50+r.Intn(2000)) * sancDenomMin[d] / 1000
+			}
+		}
+		if len(f) > 0 {
+			g.do(fmt.Sprintf("fund who=MKT amt=%s", f))
+		}
+	}
+	for _, m := range markers {
+		for i, k := 0, r.Intn(4); i < k; i++ {
+			g.grantOp(m)
 		}
 	}
 	if len(denoms) > 1 {
@@ -1325,7 +1749,7 @@ func (g *sancGen) history(k int, steps int) {
 			}
 			return uint64(1 + r.Intn(int(next)+1))
 		}
-		x := r.Intn(100)
+		x := r.Intn(120)
 		var voting []uint64
 		for id, st := range before {
 			if strings.HasPrefix(st, "V") {
@@ -1345,6 +1769,8 @@ func (g *sancGen) history(k int, steps int) {
 			}
 		}
 		switch {
+		case x >= 100:
+			g.routeOp()
 		case x < 22 || len(ids) == 0 && x < 50:
 			exp := "0"
 			if r.Chance(15) || g.mode == 1 && r.Chance(15) {
@@ -1448,6 +1874,233 @@ func (g *sancGen) history(k int, steps int) {
 		}
 		g.countTransitions(g.last, before, hadTemp)
 		g.q()
+	}
+}
+
+
+// ---- routes that move funds on an account's behalf --------------------------------------
+
+func (g *sancGen) sanctionedOf(pool []string) []string {
+	var out []string
+	for _, n := range pool {
+		if g.e.a.SanctionKeeper.IsSanctionedAddr(g.e.ctx, sancAddrs[n]) {
+			out = append(out, n)
+		}
+	}
+	return out
+}
+
+// holder picks the account whose funds an operation moves: mostly a sanctioned one when there is one.
+func (g *sancGen) holder(pool []string) string {
+	if s := g.sanctionedOf(pool); len(s) > 0 && g.r.Chance(65) {
+		return Pick(g.r, s)
+	}
+	return Pick(g.r, pool)
+}
+
+// spend picks an amount of denom d out of who's balance: small, the whole balance, or one more.
+func (g *sancGen) spend(who, d string) int64 {
+	r := g.r
+	bal := g.e.a.BankKeeper.GetBalance(g.e.ctx, sancAddrs[who], d).Amount
+	amt := int64(1 + r.Intn(60))
+	if bal.IsInt64() && r.Chance(12) {
+		amt = bal.Int64() + int64(r.Intn(2))
+	}
+	if r.Chance(2) {
+		amt = 0
+	}
+	return amt
+}
+
+var sancHolders = []string{"A", "B", "C", "D", "V"}
+
+// transferGrants lists the (grantee, granter) pairs of the marker transfer authorizations whose
+// limit covers the denom.
+func (g *sancGen) transferGrants(denom string) [][2]string {
+	var out [][2]string
+	g.e.a.AuthzKeeper.IterateGrants(g.e.ctx, func(granter, grantee sdk.AccAddress, gr authz.Grant) bool {
+		if au, err := gr.GetAuthorization(); err == nil {
+			if mta, ok := au.(*markertypes.MarkerTransferAuthorization); ok && mta.TransferLimit.AmountOf(denom).IsPositive() {
+				out = append(out, [2]string{g.e.name(grantee), g.e.name(granter)})
+			}
+		}
+		return false
+	})
+	sort.Slice(out, func(i, j int) bool { return out[i][0]+"<"+out[i][1] < out[j][0]+"<"+out[j][1] })
+	return out
+}
+
+func (g *sancGen) grantOp(m sancMarker) {
+	r := g.r
+	admins := append(append([]string{}, m.xfer...), m.forcers...)
+	to := Pick(r, sancUsers)
+	if len(admins) > 0 && r.Chance(85) {
+		to = Pick(r, admins)
+	}
+	lim := fmt.Sprintf("%d%s", 1+r.Intn(300), m.denom)
+	switch {
+	case r.Chance(4):
+		lim = "0" + m.denom
+	case r.Chance(3):
+		lim = "-"
+	case r.Chance(6):
+		lim = fmt.Sprintf("%d%s,%d%s", 1+r.Intn(300), m.denom, 1+r.Intn(50), "zcoin")
+	}
+	from := g.holder(sancHolders)
+	if from == to && r.Chance(90) {
+		for from == to {
+			from = Pick(r, sancHolders)
+		}
+	}
+	g.do(fmt.Sprintf("grant from=%s to=%s lim=%s", from, to, lim))
+}
+
+// routeOp emits one operation that moves funds without a bank message of their owner: a marker
+// transfer by an administrator (with an authz grant, as a forced transfer, of its own coins; to a
+// third party or to the administrator itself), a withdrawal from a marker's or the market's
+// account, an exchange payment, an exchange order settlement.
+func (g *sancGen) routeOp() {
+	r := g.r
+	ms := g.e.markers
+	kind := Pick(r, []string{"mxfer", "mxfer", "mxfer", "mxfer", "grant", "mwd", "mktwd", "pay", "pay", "settle", "settle"})
+	if len(ms) == 0 && (kind == "mxfer" || kind == "grant" || kind == "mwd") {
+		kind = Pick(r, []string{"pay", "settle", "mktwd"})
+	}
+	// a sanctioned marker / market account: try to take its funds out
+	var sancMs []sancMarker
+	for _, m := range ms {
+		if g.e.a.SanctionKeeper.IsSanctionedAddr(g.e.ctx, sancAddrs[m.acct]) {
+			sancMs = append(sancMs, m)
+		}
+	}
+	switch {
+	case len(sancMs) > 0 && r.Chance(35):
+		kind, ms = "mwd", sancMs
+	case g.e.a.SanctionKeeper.IsSanctionedAddr(g.e.ctx, sancAddrs["MKT"]) && r.Chance(30):
+		kind = "mktwd"
+	}
+	other := func(not string) string {
+		for {
+			if n := Pick(r, sancHolders); n != not {
+				return n
+			}
+		}
+	}
+	switch kind {
+	case "grant":
+		g.grantOp(Pick(r, ms))
+	case "mxfer":
+		m := Pick(r, ms)
+		admins := append(append([]string{}, m.xfer...), m.forcers...)
+		admin := Pick(r, sancUsers)
+		if len(admins) > 0 && r.Chance(90) {
+			admin = Pick(r, admins)
+		}
+		from := g.holder(sancHolders)
+		if gs := g.transferGrants(m.denom); len(gs) > 0 && r.Chance(45) {
+			// a pair with a grant in force: the owner of the funds let this administrator move them
+			// (prefer a grant of an owner that has been sanctioned since)
+			x := Pick(r, gs)
+			for _, y := range gs {
+				if r.Chance(60) && g.e.a.SanctionKeeper.IsSanctionedAddr(g.e.ctx, sancAddrs[y[1]]) {
+					x = y
+				}
+			}
+			admin, from = x[0], x[1]
+		}
+		switch {
+		case r.Chance(8):
+			from = admin
+		case r.Chance(3):
+			from = Pick(r, []string{"GOV", "FEE", m.acct, "MKT"})
+		}
+		to := Pick(r, sancHolders)
+		switch {
+		case r.Chance(40):
+			to = admin // the administrator brings the coins to its own account
+		case r.Chance(4):
+			to = Pick(r, []string{"GOV", "BOND", "FEE", "QUAR"})
+		case r.Chance(3):
+			to = m.acct
+		case r.Chance(2):
+			to = "EMPTY"
+		}
+		d := m.denom
+		if r.Chance(3) {
+			d = sancBond
+		}
+		g.do(fmt.Sprintf("mxfer admin=%s from=%s to=%s amt=%d%s", admin, from, to, g.spend(from, d), d))
+	case "mwd":
+		m := Pick(r, ms)
+		admin := Pick(r, sancUsers)
+		if len(m.withdraw) > 0 && r.Chance(90) {
+			admin = Pick(r, m.withdraw)
+		}
+		to := Pick(r, sancHolders)
+		if r.Chance(35) {
+			to = admin
+		}
+		if r.Chance(4) {
+			to = Pick(r, []string{"GOV", "FEE"})
+		}
+		d := m.denom
+		if r.Chance(25) {
+			d = sancBond
+		}
+		den := m.denom
+		if r.Chance(3) {
+			den = "qcoin"
+		}
+		g.do(fmt.Sprintf("mwd admin=%s to=%s denom=%s amt=%d%s", admin, to, den, g.spend(m.acct, d), d))
+	case "mktwd":
+		admin := Pick(r, []string{"A", "C"})
+		if r.Chance(8) {
+			admin = Pick(r, sancHolders)
+		}
+		to := Pick(r, sancHolders)
+		switch {
+		case r.Chance(40):
+			to = admin // the administrator takes the funds itself
+		case r.Chance(4):
+			to = Pick(r, []string{"GOV", "FEE"})
+		}
+		d := Pick(r, g.denoms)
+		g.do(fmt.Sprintf("mktwd admin=%s to=%s amt=%d%s", admin, to, g.spend("MKT", d), d))
+	case "pay":
+		src := g.holder(sancHolders)
+		tgt := other(src)
+		if s := g.sanctionedOf(sancHolders); len(s) > 0 && r.Chance(35) {
+			tgt = Pick(r, s) // (may be the source itself)
+		}
+		sd, td := Pick(r, g.denoms), Pick(r, g.denoms)
+		samt, tamt := fmt.Sprintf("%d%s", g.spend(src, sd), sd), fmt.Sprintf("%d%s", g.spend(tgt, td), td)
+		switch r.Intn(5) {
+		case 0:
+			samt = "-"
+		case 1, 2:
+			tamt = "-"
+		}
+		g.do(fmt.Sprintf("pay src=%s tgt=%s samt=%s tamt=%s", src, tgt, samt, tamt))
+	case "settle":
+		seller := g.holder(sancHolders)
+		buyer := other(seller)
+		if r.Chance(50) {
+			seller, buyer = buyer, seller
+		}
+		ad := Pick(r, g.denoms)
+		pd := sancBond
+		if ad == sancBond {
+			pd = "qcoin"
+			for _, d := range g.denoms {
+				if d != sancBond {
+					pd = d
+				}
+			}
+		}
+		if r.Chance(3) {
+			buyer = seller
+		}
+		g.do(fmt.Sprintf("settle seller=%s buyer=%s assets=%d%s price=%d%s", seller, buyer, g.spend(seller, ad), ad, g.spend(buyer, pd), pd))
 	}
 }
 
